@@ -33,8 +33,12 @@ impl LintPass for ControlFlowCheck {
                             ));
                         }
                         // Jumps (J not JAL) to the start of recognized
-                        // functions are errors
-                        else if prev_node.is_unconditional_jump() {
+                        // functions are errors, unless the jump is part of
+                        // the function itself: a loop whose head is the
+                        // function's first instruction enters nothing
+                        else if prev_node.is_unconditional_jump()
+                            && !prev_node.functions().contains(function)
+                        {
                             errors.push(LintError::InvalidJumpToFunction(
                                 node.node().clone(),
                                 prev_node.node().clone(),
